@@ -217,14 +217,14 @@ func main() {
 				fmt.Fprintf(os.Stderr, "   violated: %s [%s] %s shape=%v\n", c.Harness, c.Kind, c.Label, c.Choices)
 				validated++
 			} else {
-				spurious = append(spurious, fmt.Sprintf("%s: %q sat in the %s reading but not reproduced natively (status %s, fails %v)", c.Harness, c.Label, c.Mode, o.Status, o.Fails))
+				spurious = append(spurious, fmt.Sprintf("%s: %q sat in the %s reading but not reproduced natively (status %s, fails %v; inputs %s)", c.Harness, c.Label, c.Mode, o.Status, o.Fails, inputsBrief(c)))
 			}
 		case "kf":
 			if reproduced(c, o) {
 				validated++
 				if !kfSeen[c.KF] {
 					kfSeen[c.KF] = true
-					lines = append(lines, fmt.Sprintf("KNOWN-FINDING: property=%s %s [%s; witness %s]", *prop, e.knownWhat[c.KF], c.KF, inputsBrief(c)))
+					lines = append(lines, fmt.Sprintf("KNOWN-FINDING: property=%s %s [%s; witness %s]", *prop, e.knownWhat[*prop+"|"+c.KF], c.KF, inputsBrief(c)))
 				}
 			} else {
 				spurious = append(spurious, fmt.Sprintf("%s: known-finding witness for %q not reproduced natively", c.Harness, c.Label))
